@@ -12,6 +12,7 @@ import Signac.Proofs.SyncMore
 import Signac.Proofs.SyncIdem
 import Signac.Proofs.SyncParallel
 import Signac.Proofs.SyncIdemFull
+import Signac.Proofs.SyncLiveLemmas
 namespace Signac.C13
 open Signac Signac.Sync
 
@@ -438,5 +439,291 @@ example : getE "j2" (wsOf exDocWorld.dst) = none ∧
   ⟨by decide, by decide⟩
 
 
-end Signac.C13
+/-! ## The document merge on a LIVE destination (model: Signac/SyncLive.lean)
 
+  The destination document is a file that another process may rewrite between any two accesses of
+  the merge (`runLive env`: before step `n` the environment rewrites the file with `env n`).
+  Proofs: Signac/Proofs/SyncLiveLemmas.lean. -/
+
+/-- `live_refines_pure`, `DocSync.ByKey(ks)`: with no other process the step program ends with the
+    file, the skipped keys, the "wrote anything" flag and the type-error flag of the pure model —
+    for every key strategy, at every nesting depth, type errors included.  Hypotheses: mappings
+    with pairwise distinct keys on both sides (true of every Python dict; needed because the code
+    compares `dst[key] == value` in one place and `src == dst` in another and the model's `==`
+    is symmetric only on such values). -/
+theorem live_refines_pure (ks : Option (String → Bool)) (s d : Doc)
+    (hs : NodupKeysObj s) (hd : NodupKeysObj d) :
+    (runQuiet (liveByKey ks s) d).file = (byKeyItems ks "" s ⟨d, [], false, false⟩).dst ∧
+    (runQuiet (liveByKey ks s) d).res.skipped = (byKeyItems ks "" s ⟨d, [], false, false⟩).skipped ∧
+    (runQuiet (liveByKey ks s) d).res.wrote = (byKeyItems ks "" s ⟨d, [], false, false⟩).wrote ∧
+    (runQuiet (liveByKey ks s) d).res.typeErr = (byKeyItems ks "" s ⟨d, [], false, false⟩).typeErr := by
+  have h := runQuiet_eq (liveByKey ks s) d
+  rw [liveByKey_quiet ks s d hs hd] at h
+  rw [h.1, h.2]
+  exact ⟨rfl, rfl, rfl, rfl⟩
+
+/-- `live_refines_pure`, `DocSync.update`: no hypotheses. -/
+theorem live_refines_pure_update (s d : Doc) :
+    (runQuiet (liveUpdate s) d).file = updateItems s d ∧
+    (runQuiet (liveUpdate s) d).res.skipped = [] ∧
+    (runQuiet (liveUpdate s) d).res.wrote = !s.isEmpty ∧
+    (runQuiet (liveUpdate s) d).res.typeErr = false := by
+  have h := runQuiet_eq (liveUpdate s) d
+  rw [liveUpdate_quiet s d] at h
+  rw [h.1, h.2]
+  exact ⟨rfl, rfl, rfl, rfl⟩
+
+/-- … and against `runDocSync`, the function the directory-level model uses: whenever the pure
+    strategy raises nothing, the quiet step program leaves its document and its `wrote` flag. -/
+theorem live_refines_runDocSync (ds : DocSync) (s d : Doc) (hs : NodupKeysObj s) (hd : NodupKeysObj d)
+    (hok : (runDocSync ds s d).err = none) :
+    (runQuiet (liveDocSync ds s) d).file = (runDocSync ds s d).doc ∧
+    (runQuiet (liveDocSync ds s) d).res.wrote = (runDocSync ds s d).wrote := by
+  cases ds with
+  | byKey ks =>
+    have h := live_refines_pure ks s d hs hd
+    have hte : (byKeyItems ks "" s ⟨d, [], false, false⟩).typeErr = false := by
+      cases ht : (byKeyItems ks "" s ⟨d, [], false, false⟩).typeErr with
+      | false => rfl
+      | true => simp [runDocSync, ht] at hok
+    simp only [liveDocSync, h.1, h.2.2.1]
+    simp only [runDocSync, hte, Bool.false_eq_true, if_false]
+    cases ks with
+    | none => cases (byKeyItems none "" s ⟨d, [], false, false⟩).skipped <;> exact ⟨rfl, rfl⟩
+    | some f => exact ⟨rfl, rfl⟩
+  | update =>
+    have h := live_refines_pure_update s d
+    exact ⟨h.1, h.2.2.1⟩
+  | noSync => exact ⟨rfl, rfl⟩
+  | copy => exact ⟨rfl, rfl⟩
+
+/-- `live_foreign_keys_preserved` — `DocSync.ByKey` with any key strategy, `DocSync.update`
+    (and NO_SYNC / COPY, which run no merge).  The environment is ANY sequence of rewrites each of
+    which leaves every top-level key of the source untouched; it may add, change and delete any
+    other top-level key, and it may read everything.  Then
+      (1) the merge reports what the quiet run reports (skipped keys, wrote, type error);
+      (2) under every top-level key of the source the final file holds what the quiet run leaves;
+      (3) NO STEP of the merge changes any other top-level key: for every step, the file just
+          after the step holds under every key the source does not mention exactly what the
+          environment's last rewrite left there (`traceLive`: the pairs (file as the environment
+          left it before the step, file after the step));
+      (4) the final file is the file after the last step (the initial one if there was no step).
+    So whatever the other process wrote to keys the source does not hold survives: the sync never
+    puts back a stale copy. -/
+theorem live_foreign_keys_preserved (ds : DocSync) (s d : Doc) (hs : NodupKeysObj s) (hd : NodupKeysObj d)
+    (env : Nat → Doc → Doc)
+    (henv : ∀ n x, ∀ k ∈ keys s, lookupKV k (env n x) = lookupKV k x) :
+    (runLive env (liveDocSync ds s) d).res = (runQuiet (liveDocSync ds s) d).res ∧
+    (∀ k ∈ keys s, lookupKV k (runLive env (liveDocSync ds s) d).file =
+        lookupKV k (runQuiet (liveDocSync ds s) d).file) ∧
+    (∀ ba ∈ traceLive env (liveDocSync ds s) d, ∀ k, k ∉ keys s → lookupKV k ba.2 = lookupKV k ba.1) ∧
+    (runLive env (liveDocSync ds s) d).file =
+      (((traceLive env (liveDocSync ds s) d).getLast?).map Prod.snd).getD d := by
+  have hsim := liveDocSync_sim ds s d hs hd env henv
+  have hq := runQuiet_eq (liveDocSync ds s) d
+  refine ⟨by rw [hsim.1, hq.2], fun k hk => by rw [hsim.2 k hk, hq.1], ?_, ?_⟩
+  · exact (liveDocSync_onlyWrites ds s).trace env 0 d
+  · exact runLiveFrom_file_trace env _ 0 d
+
+/-- `DocSync.update` reads nothing of the destination: (1) and (2) without the distinct-keys
+    hypotheses. -/
+theorem live_foreign_keys_preserved_update (s d : Doc) (env : Nat → Doc → Doc)
+    (henv : ∀ n x, ∀ k ∈ keys s, lookupKV k (env n x) = lookupKV k x) :
+    (runLive env (liveUpdate s) d).res = (runQuiet (liveUpdate s) d).res ∧
+    (∀ k ∈ keys s, lookupKV k (runLive env (liveUpdate s) d).file =
+        lookupKV k (runQuiet (liveUpdate s) d).file) ∧
+    (∀ ba ∈ traceLive env (liveUpdate s) d, ∀ k, k ∉ keys s → lookupKV k ba.2 = lookupKV k ba.1) := by
+  have hsim := (liveUpdate_resp s).sim henv 0 d d (AgreeOn.refl _ d)
+  have hq := runQuiet_eq (liveUpdate s) d
+  exact ⟨by rw [hq.2]; exact hsim.1, fun k hk => by rw [hq.1]; exact hsim.2 k hk,
+    (liveUpdate_resp s).onlyWrites.trace env 0 d⟩
+
+/-- (3) and (4) need nothing at all: not even an environment that keeps off the source's keys. -/
+theorem live_steps_keep_foreign_keys (ds : DocSync) (s d : Doc) (env : Nat → Doc → Doc) :
+    ∀ ba ∈ traceLive env (liveDocSync ds s) d, ∀ k, k ∉ keys s → lookupKV k ba.2 = lookupKV k ba.1 :=
+  (liveDocSync_onlyWrites ds s).trace env 0 d
+
+/-- The same as an invariant: any step-indexed property `I` of the part of the file outside the
+    source's keys that every rewrite of the environment maintains holds of the final file. -/
+theorem live_foreign_invariant (ds : DocSync) (s d : Doc) (env : Nat → Doc → Doc) (I : Nat → Doc → Prop)
+    (hI : ∀ n x y, (∀ j, j ∉ keys s → lookupKV j x = lookupKV j y) → I n x → I n y)
+    (henv : ∀ n x, I n x → I (n + 1) (env n x)) (h0 : I 0 d) :
+    I (runLive env (liveDocSync ds s) d).steps (runLive env (liveDocSync ds s) d).file :=
+  (liveDocSync_onlyWrites ds s).foreign_inv env I hI henv 0 d h0
+
+/-- "In particular a key written by the other process during the merge is still there afterwards":
+    the other process sets the foreign key `j` to `c` (`none`: deletes it) at step `i` and leaves
+    it alone afterwards; every run that reaches step `i` ends with `c` under `j`. -/
+theorem live_foreign_write_survives (ds : DocSync) (s d : Doc) (env : Nat → Doc → Doc)
+    (j : String) (hj : j ∉ keys s) (i : Nat) (c : Option JVal)
+    (hw : ∀ x, lookupKV j (env i x) = c)
+    (hkeep : ∀ n x, i < n → lookupKV j (env n x) = lookupKV j x)
+    (hlong : i < (runLive env (liveDocSync ds s) d).steps) :
+    lookupKV j (runLive env (liveDocSync ds s) d).file = c :=
+  (liveDocSync_onlyWrites ds s).write_survives env j hj i c hw hkeep d hlong
+
+/-! ### the `foldl` form of the clause
+
+  "For every `k ∉ keys s` the final file holds under `k` what the environment's rewrites ALONE
+  produce from the initial file" is FALSE for arbitrary rewrites `Doc → Doc`: a rewrite may READ a
+  key of the source (without changing it) and derive a foreign key from it; run alone it reads
+  the old value, run during the sync it reads the merged one.  (Nothing wrong with the code: the
+  other process sees the merge in progress.)  It is true of rewrites whose effect on the foreign
+  keys depends on the foreign keys only (`ForeignLocal`). -/
+
+/-- source and destination of the counterexample; the other process copies `a` to `z` at step 4 -/
+def cexS : Doc := [("a", .int 1), ("b", .int 2)]
+def cexD : Doc := [("a", .int 0)]
+def cexEnv : Nat → Doc → Doc := fun n x =>
+  if n = 4 then setKV "z" ((lookupKV "a" x).getD .null) x else x
+
+theorem cexEnv_keeps : ∀ n x, ∀ k ∈ keys cexS, lookupKV k (cexEnv n x) = lookupKV k x := by
+  intro n x k hk
+  simp only [cexEnv]
+  split
+  · refine lookupKV_setKV_other ?_ _ _
+    simp only [cexS, List.map_cons, List.map_nil, List.mem_cons, List.not_mem_nil, or_false] at hk
+    rcases hk with e | e <;> subst e <;> decide
+  · rfl
+
+/-- `live_foreign_keys_preserved` in its `foldl` form, REFUTED: the merge has already set `a` to 1
+    when the other process copies it to `z`; alone, the other process would have copied the 0. -/
+theorem live_foreign_envOnly_refuted :
+    ¬ (∀ (ks : Option (String → Bool)) (s d : Doc) (env : Nat → Doc → Doc),
+        NodupKeysObj s → NodupKeysObj d →
+        (∀ n x, ∀ k ∈ keys s, lookupKV k (env n x) = lookupKV k x) →
+        ∀ k, k ∉ keys s →
+          lookupKV k (runLive env (liveByKey ks s) d).file =
+          lookupKV k (envOnly env (runLive env (liveByKey ks s) d).steps d)) := by
+  intro h
+  have h1 := h (some fun _ => true) cexS cexD cexEnv
+    (by simp [cexS, NodupKeysObj, NodupKeysVal]) (by simp [cexD, NodupKeysObj, NodupKeysVal])
+    cexEnv_keeps "z" (by decide)
+  have e1 : lookupKV "z" (runLive cexEnv (liveByKey (some fun _ => true) cexS) cexD).file = some (.int 1) := rfl
+  have e2 : lookupKV "z" (envOnly cexEnv (runLive cexEnv (liveByKey (some fun _ => true) cexS) cexD).steps cexD)
+      = some (.int 0) := rfl
+  rw [e1, e2] at h1
+  cases h1
+
+/-- `live_foreign_keys_preserved_partial`: the `foldl` form under the extra hypothesis
+    `ForeignLocal (keys s) env` — what a rewrite makes of the keys outside the source depends only
+    on the keys outside the source.  Then under every key the source does not hold the final file
+    holds exactly what the rewrites that were applied (`env 0`, …, `env (steps-1)`), run alone on
+    the initial file, produce.  (Neither distinct keys nor "the environment keeps off the source's
+    keys" is needed for this half.) -/
+theorem live_foreign_keys_preserved_partial (ds : DocSync) (s d : Doc) (env : Nat → Doc → Doc)
+    (hloc : ForeignLocal (keys s) env) :
+    ∀ k, k ∉ keys s →
+      lookupKV k (runLive env (liveDocSync ds s) d).file =
+      lookupKV k ((List.range (runLive env (liveDocSync ds s) d).steps).foldl (fun x i => env i x) d) :=
+  (liveDocSync_onlyWrites ds s).envOnly env hloc d
+
+/-! ### the regression: merge into a snapshot, write the whole document back -/
+
+/-- a source/destination pair with a nested conflict (`params.n`), a nested key only in the
+    source (`params.m`), one only in the destination (`params.z`), a new key (`tag`) and a key
+    the source does not mention (`progress`) -/
+def exLiveSrc : Doc := [("params", .obj [("n", .int 2), ("m", .int 3)]), ("tag", .str "x")]
+def exLiveDst : Doc := [("params", .obj [("n", .int 5), ("z", .int 0)]), ("progress", .obj [("step", .int 1)])]
+
+/-- the running job: just before step `t` of the sync it records `progress.step = 2` and adds
+    `checkpoint` -/
+def exLiveEnv (t : Nat) : Nat → Doc → Doc := fun n x =>
+  if n = t then setKV "checkpoint" (.int 7) (setPath ["progress", "step"] (.int 2) x) else x
+
+def exAll : Option (String → Bool) := some fun _ => true
+
+theorem exLiveEnv_keeps (t : Nat) : ∀ n x, ∀ k ∈ keys exLiveSrc, lookupKV k (exLiveEnv t n x) = lookupKV k x := by
+  intro n x k hk
+  simp only [exLiveEnv]
+  split
+  · simp only [exLiveSrc, List.map_cons, List.map_nil, List.mem_cons, List.not_mem_nil, or_false] at hk
+    rw [lookupKV_setKV_other (by rcases hk with e | e <;> subst e <;> decide),
+      lookupKV_setPath_other (by rcases hk with e | e <;> subst e <;> decide)]
+  · rfl
+
+/-- `snapshot_merge_loses_writes`: the regression (`mergeSnapshot`: load once, run the pure merge,
+    store the whole document) and the code as it is (`liveDocSync`) agree when nobody else writes,
+    but when the job records its progress between the load and the write-back the snapshot
+    merge DROPS the new key `checkpoint` and puts the stale `progress.step` back, while the step
+    program keeps both — for `ByKey` and for `update`.  So `live_foreign_keys_preserved` is not
+    vacuous and tells the two implementations apart. -/
+theorem snapshot_merge_loses_writes :
+    -- quiet: no difference
+    (runQuiet (mergeSnapshot (.byKey exAll) exLiveSrc) exLiveDst).file =
+      (runQuiet (liveDocSync (.byKey exAll) exLiveSrc) exLiveDst).file ∧
+    -- the other process writes just before step 1
+    lookupKV "checkpoint" (runLive (exLiveEnv 1) (mergeSnapshot (.byKey exAll) exLiveSrc) exLiveDst).file = none ∧
+    getPath ["progress", "step"] (runLive (exLiveEnv 1) (mergeSnapshot (.byKey exAll) exLiveSrc) exLiveDst).file
+      = some (.int 1) ∧
+    lookupKV "checkpoint" (runLive (exLiveEnv 1) (liveDocSync (.byKey exAll) exLiveSrc) exLiveDst).file
+      = some (.int 7) ∧
+    getPath ["progress", "step"] (runLive (exLiveEnv 1) (liveDocSync (.byKey exAll) exLiveSrc) exLiveDst).file
+      = some (.int 2) ∧
+    -- the same for `DocSync.update`
+    lookupKV "checkpoint" (runLive (exLiveEnv 1) (mergeSnapshot .update exLiveSrc) exLiveDst).file = none ∧
+    lookupKV "checkpoint" (runLive (exLiveEnv 1) (liveDocSync .update exLiveSrc) exLiveDst).file
+      = some (.int 7) ∧
+    -- the regression violates clause (3) of `live_foreign_keys_preserved`
+    ¬ (∀ ba ∈ traceLive (exLiveEnv 1) (mergeSnapshot (.byKey exAll) exLiveSrc) exLiveDst,
+        ∀ k, k ∉ keys exLiveSrc → lookupKV k ba.2 = lookupKV k ba.1) := by
+  refine ⟨rfl, rfl, rfl, rfl, rfl, rfl, rfl, ?_⟩
+  intro h
+  have h1 := h (_, _) (List.mem_cons_of_mem _ (List.mem_cons_self)) "checkpoint" (by decide)
+  have e1 : lookupKV "checkpoint"
+      (setPath [] (.obj (byKeyItems exAll "" exLiveSrc ⟨exLiveEnv 1 0 exLiveDst, [], false, false⟩).dst)
+        (exLiveEnv 1 1 (exLiveEnv 1 0 exLiveDst))) = none := rfl
+  have e2 : lookupKV "checkpoint" (exLiveEnv 1 1 (exLiveEnv 1 0 exLiveDst)) = some (.int 7) := rfl
+  exact absurd (h1.symm.trans e1) (by rw [e2]; simp)
+
+/-! ### non-vacuity -/
+
+/-- the example run, other process at step 2 (after `src == dst` and `"params" in dst`): the
+    nested conflict `params.n` is resolved by the key strategy, `params.m` and `tag` are added,
+    `params.z` stays, and both writes of the other process are in the final file -/
+example : (runLive (exLiveEnv 2) (liveByKey exAll exLiveSrc) exLiveDst).file =
+    [("params", .obj [("n", .int 2), ("z", .int 0), ("m", .int 3)]),
+     ("progress", .obj [("step", .int 2)]), ("checkpoint", .int 7), ("tag", .str "x")] ∧
+    (runLive (exLiveEnv 2) (liveByKey exAll exLiveSrc) exLiveDst).steps = 12 ∧
+    (runLive (exLiveEnv 2) (liveByKey exAll exLiveSrc) exLiveDst).res.skipped = [] := ⟨rfl, rfl, rfl⟩
+
+/-- without a key strategy: the conflict is recorded under its dotted key and `params.n` keeps the
+    destination's value; the other process's writes survive all the same -/
+example : (runLive (exLiveEnv 2) (liveByKey none exLiveSrc) exLiveDst).file =
+    [("params", .obj [("n", .int 5), ("z", .int 0), ("m", .int 3)]),
+     ("progress", .obj [("step", .int 2)]), ("checkpoint", .int 7), ("tag", .str "x")] ∧
+    (runLive (exLiveEnv 2) (liveByKey none exLiveSrc) exLiveDst).res.skipped = ["params.n"] := ⟨rfl, rfl⟩
+
+/-- the quiet run of the same pair (= the pure model, by `live_refines_pure`) -/
+example : (runQuiet (liveByKey exAll exLiveSrc) exLiveDst).file =
+    [("params", .obj [("n", .int 2), ("z", .int 0), ("m", .int 3)]),
+     ("progress", .obj [("step", .int 1)]), ("tag", .str "x")] := rfl
+
+/-- the hypotheses of the theorems hold of the example -/
+example : NodupKeysObj exLiveSrc ∧ NodupKeysObj exLiveDst :=
+  ⟨by simp [exLiveSrc, NodupKeysObj, NodupKeysVal], by simp [exLiveDst, NodupKeysObj, NodupKeysVal]⟩
+
+/-- `live_foreign_keys_preserved` applied to the example, any key strategy, any strike time -/
+example (ks : Option (String → Bool)) (t : Nat) :
+    (runLive (exLiveEnv t) (liveDocSync (.byKey ks) exLiveSrc) exLiveDst).res =
+      (runQuiet (liveDocSync (.byKey ks) exLiveSrc) exLiveDst).res ∧
+    ∀ k ∈ keys exLiveSrc, lookupKV k (runLive (exLiveEnv t) (liveDocSync (.byKey ks) exLiveSrc) exLiveDst).file =
+      lookupKV k (runQuiet (liveDocSync (.byKey ks) exLiveSrc) exLiveDst).file :=
+  have h := live_foreign_keys_preserved (.byKey ks) exLiveSrc exLiveDst
+    (by simp [exLiveSrc, NodupKeysObj, NodupKeysVal]) (by simp [exLiveDst, NodupKeysObj, NodupKeysVal])
+    (exLiveEnv t) (exLiveEnv_keeps t)
+  ⟨h.1, h.2.1⟩
+
+/-- `live_foreign_write_survives` applied: `checkpoint`, written at step 2, is there at the end
+    of the 12-step run -/
+example : lookupKV "checkpoint" (runLive (exLiveEnv 2) (liveDocSync (.byKey exAll) exLiveSrc) exLiveDst).file
+    = some (.int 7) :=
+  live_foreign_write_survives (.byKey exAll) exLiveSrc exLiveDst (exLiveEnv 2) "checkpoint" (by decide) 2
+    (some (.int 7))
+    (fun x => by simp only [exLiveEnv, if_true]; exact lookupKV_setKV_same _ _ _)
+    (fun n x hn => by
+      have : ¬ n = 2 := by omega
+      simp only [exLiveEnv, this, if_false])
+    (by decide)
+
+end Signac.C13
